@@ -28,14 +28,19 @@ CORPUS_ALL = {
 }
 recs = {}
 for f_ in soaks:
-    c07only = f_.startswith("c07only:")
-    for ln in open(f_.split(":", 1)[1] if c07only else f_):
+    # "only=C05,C07:/path": the workloads of that soak are explored by the
+    # named properties only (excluded classes: C07; genx family: C05, C07)
+    only = None
+    if f_.startswith("c07only:"):
+        only, f_ = ["C07"], f_.split(":", 1)[1]
+    elif f_.startswith("only="):
+        head, f_ = f_.split(":", 1)
+        only = head[5:].split(",")
+    for ln in open(f_):
         r = json.loads(ln)
-        if c07only:
-            # workloads of the excluded classes are explored by C07 only
-            r["cls"] = [c for c in r["cls"] if c.startswith("C07:")]
-            r["status"] = "c07only"
-            r.pop("text", None)
+        if only:
+            r["only"] = only
+            r["status"] = "restricted"
         recs[(r["wid"], r["sched"])] = r
 pts = collections.defaultdict(set)   # (prop, cls) -> {(wid, sid)}
 outs = collections.defaultdict(dict)  # wid -> outcome -> [sids]
@@ -57,6 +62,8 @@ def current_classes(r):
 
 for (wid, sid), r in recs.items():
     r["cls"] = current_classes(r)
+    if r.get("only"):
+        r["cls"] = [c for c in r["cls"] if c.split(":")[0] in r["only"]]
     for c in r["cls"]:
         prop, cls = c.split(":", 1)
         pts[(prop, cls)].add((wid, sid))
